@@ -1,6 +1,7 @@
 //! Engine K checks: the real compio runtime, driver, fs and net crates on the simulated io_uring kernel.
 
 mod actors;
+mod ancillary;
 mod bufpool;
 mod cancel;
 mod childproto;
@@ -41,6 +42,7 @@ fn main() {
     let mut scenarios: Vec<Scenario> = Vec::new();
     scenarios.extend(smoke::scenarios());
     scenarios.extend(actors::scenarios());
+    scenarios.extend(ancillary::scenarios());
     scenarios.extend(bufpool::scenarios());
     scenarios.extend(cancel::scenarios());
     scenarios.extend(datagrams::scenarios());
